@@ -575,16 +575,27 @@ func namespaceScenario(r *rand.Rand, marker bool) scenario {
 		}
 	}
 	s.World.Pods = listedPods(r, marker, s.LVs, n)
-	if s.Cfg.MaxPods > 0 && len(s.Cfg.ExRCs) > 0 && r.Intn(100) < 25 {
+	if len(s.Cfg.ExRCs) > 0 && ((s.Cfg.MaxPods > 0 && r.Intn(100) < 25) || (s.Cfg.MaxPods == 0 && r.Intn(100) < 12)) {
 		// a controller mid-rollout: its first listed pod runs under an exempt runtime class, its second one
 		// does not and violates every candidate policy; then more bare pods than the budget
 		n = s.Cfg.MaxPods + 2 + r.Intn(2)
+		if s.Cfg.MaxPods == 0 {
+			n = 3 + r.Intn(3)
+		}
 		pods := listedPods(r, marker, s.LVs, n)
 		tr := true
 		owner := []metav1.OwnerReference{{UID: "rollout", Controller: &tr}}
 		rc := s.Cfg.ExRCs[r.Intn(len(s.Cfg.ExRCs))]
-		pods[0].OwnerReferences, pods[0].Spec.RuntimeClassName = owner, &rc
-		pods[1].OwnerReferences, pods[1].Spec.RuntimeClassName = owner, nil
+		if r.Intn(2) == 0 {
+			// (a) the controller's first listed pod is exempt, its second one is not and violates
+			pods[0].OwnerReferences, pods[0].Spec.RuntimeClassName = owner, &rc
+			pods[1].OwnerReferences, pods[1].Spec.RuntimeClassName = owner, nil
+		} else {
+			// (b) the controller's first listed pod is ordinary, a later replica runs under the exempt class and
+			// violates: it must be skipped, not evaluated as a duplicate replica
+			pods[0].OwnerReferences, pods[0].Spec.RuntimeClassName = owner, nil
+			pods[1].OwnerReferences, pods[1].Spec.RuntimeClassName = owner, &rc
+		}
 		pods[1].Spec.HostNetwork = true
 		if marker {
 			if pods[1].Annotations == nil {
